@@ -36,6 +36,10 @@ def get_fb(f, drop_self=True):
 
 def _get_posonly_names(f):
     try:
+        return list(f._sinter_posonly)  # recorded by clastic_decorator
+    except AttributeError:
+        pass
+    try:
         sig_params = inspect.signature(f).parameters.values()
     except (TypeError, ValueError):
         return []
